@@ -183,6 +183,7 @@ var ctxs = []ctx{
 	{"mixedargs", "func mgCTX(p, q, r Int) Int { return p*100 + q*10 + r }", `verif.TrI("g", mgCTX(verif.TrI("a", 1), CALL(2), verif.TrI("c", 3)))`},
 	{"mixedargsmany", "func mg5CTX(p, q, r, s, t Int) Int { return verif.TrI(\"mg5=\", p*10000+q*1000+r*100+s*10+t) }\ntype MGCTX struct{}\nfunc (MGCTX) m(p, q, r, s Int) Int { return verif.TrI(\"m=\", p*1000+q*100+r*10+s) }", `verif.TrI("g", mg5CTX(verif.TrI("a", 1), CALL(2), verif.TrI("c", 3), CALL(4), verif.TrI("e", 5))); verif.TrI("h", MGCTX{}.m(CALL(1), verif.TrI("b", 2), CALL(3), verif.TrI("d", 4))); func() { defer mg5CTX(verif.TrI("a", 1), CALL(2), verif.TrI("c", 3), CALL(4), 5); verif.Tr("body") }(); done := make(chan Int); go func(p, q, r, s Int) { done <- p*1000 + q*100 + r*10 + s }(verif.TrI("a", 1), CALL(2), verif.TrI("c", 3), CALL(4)); verif.TrI("go", <-done)`},
 	{"tuplelhs", "func pairCTX() (Int, Int) { return verif.TrI(\"p\", 3), 30 }\ntype bxCTX struct{ f Int }\nvar gbxCTX bxCTX\nfunc boxCTX(n Int) *bxCTX { return &gbxCTX }", `arr := []Int{0, 0, 0, 0}; var a Int; a, arr[CALL(3)] = pairCTX(); verif.TrI("a", a*100+arr[3]); arr[CALL(1)], arr[CALL(2)] = pairCTX(); verif.TrI("arr", arr[1]*100+arr[2]); a, boxCTX(CALL(1)).f = pairCTX(); verif.TrI("box", a*100+gbxCTX.f); m := map[string]Int{"k": 7}; oks := []bool{false, false}; var v Int; v, oks[CALL(1)] = m["k"]; if oks[1] { verif.TrI("v", v) }; var i interface{} = Int(9); v, oks[CALL(0)] = i.(Int); if oks[0] { verif.TrI("as", v) }; c := make(chan Int, 1); c <- 4; oks[1] = false; v, oks[CALL(1)] = <-c; if oks[1] { verif.TrI("rc", v) }; x, y := CALL(1), arr[CALL(2)]; verif.TrI("xy", x*100+y)`},
+	{"tuplefwd", "func pairfCTX() (Int, Int) { return verif.TrI(\"p\", 3), 30 }\nfunc getfCTX(n Int) func(Int, Int) Int { return func(a, b Int) Int { return a*100 + b + n } }\ntype fwCTX struct{ k Int }\nfunc (f fwCTX) sum(a, b Int) Int { return a + b + f.k }\nfunc mkfwCTX(k Int) fwCTX { return fwCTX{k} }", `verif.TrI("f", getfCTX(CALL(1))(pairfCTX())); verif.TrI("m", mkfwCTX(CALL(2)).sum(pairfCTX())); func() { defer getfCTX(CALL(3))(pairfCTX()); verif.Tr("body") }(); verif.TrI("plain", getfCTX(4)(pairfCTX()))`},
 	{"mixedtuple", "func mtCTX() (Int, Int) { return verif.TrI(\"a\", 1), CALL(2) }", `a, b := verif.TrI("a", 1), CALL(2); verif.TrI("ab", a*10+b); c, d := mtCTX(); verif.TrI("cd", c*10+d)`},
 	{"mixedsendappend", "", `c := make(chan Int, 2); var sl []Int; sl = append(sl, verif.TrI("e", 1), CALL(2)); verif.TrI("sl", sl[0]*10+sl[1]); s2 := "a" + string(rune(64+verif.TrI("r", 1))) + string(rune(64+CALL(2))); verif.Tr(s2); c <- verif.TrI("v", 1) + CALL(2); verif.TrI("c", <-c)`},
 	{"defers", "", `func() { defer func() { verif.Tr("d1"); CALL(1); verif.Tr("d1e") }(); defer func() { verif.Tr("d2"); CALL(2); verif.Tr("d2e") }(); defer verif.TrI("arg", CALL(3)); verif.Tr("body"); CALL(4) }(); verif.Tr("after")`},
